@@ -59,7 +59,7 @@ func c12Alphabet() []c12sym {
 
 // reduced alphabet: one representative per automaton edge
 func c12Reduced(full []c12sym) []c12sym {
-	want := map[string]bool{"OPTIONS": true, "DESCRIBE": true, "ANNOUNCE": true, "SETUP_v_tcp_play": true, "SETUP_v_tcp_record": true,
+	want := map[string]bool{"OPTIONS": true, "DESCRIBE": true, "ANNOUNCE": true, "ANNOUNCE_badsdp": true, "SETUP_v_tcp_play": true, "SETUP_v_tcp_record": true,
 		"PLAY": true, "RECORD": true, "PAUSE": true, "TEARDOWN": true}
 	var out []c12sym
 	for _, s := range full {
